@@ -55,7 +55,9 @@ pub mod plain {
 
 pub struct BCtr;
 
-impl plain::Plain for BCtr {
+macro_rules! impl_plain {
+    ($t:ty) => {
+impl plain::Plain for $t {
     type Error = StdError;
     fn echo_exec(&self, ctx: sylvia::ctx::ExecCtx) -> StdResult<Response> {
         let nonce = ctx.deps.querier.query_balance("bank", "nonce").map(|c| c.amount.to_string()).unwrap_or_else(|e| format!("ERR {e}"));
@@ -76,6 +78,10 @@ impl plain::Plain for BCtr {
     }
 }
 
+    };
+}
+impl_plain!(BCtr);
+
 #[sylvia::entry_points]
 #[sylvia::contract]
 #[sv::custom(msg=MyMsg, query=MyQuery)]
@@ -93,6 +99,27 @@ impl BCtr {
         let nonce = ctx.deps.querier.query_balance("bank", "nonce").map(|c| c.amount.to_string()).unwrap_or_else(|e| format!("ERR {e}"));
         saw("native_exec", &ctx.env, ctx.deps.storage, Some(&ctx.info), nonce);
         Ok(Response::new())
+    }
+}
+
+/// A contract with a custom *query* type only (its messages stay over the empty custom message type), including the same interface.
+pub mod qonly {
+    use super::*;
+    pub struct QCtr;
+    impl_plain!(QCtr);
+
+    #[sylvia::entry_points]
+    #[sylvia::contract]
+    #[sv::custom(query=MyQuery)]
+    #[sv::messages(plain: custom(msg, query))]
+    impl QCtr {
+        pub const fn new() -> Self {
+            QCtr
+        }
+        #[sv::msg(instantiate)]
+        fn instantiate(&self, _ctx: sylvia::ctx::InstantiateCtx<MyQuery>) -> StdResult<Response> {
+            Ok(Response::new())
+        }
     }
 }
 
@@ -256,6 +283,35 @@ fn main() {
             };
             let base = json!({"ev":"Bridge","seq":seq,"via":via,"desc":desc,"in":proj(&response(s)),"env":envj,"seen":seen,"native":native,"mark":mark});
             let mut ev = base;
+            match out {
+                Ok(Ok(o)) => { ev["verdict"] = json!("ok"); ev["out"] = proj(&o); ev["err"] = json!(""); }
+                Ok(Err(e)) => { ev["verdict"] = json!("err"); ev["out"] = empty_proj(); ev["err"] = json!(e.to_string()); }
+                Err(m) => { ev["verdict"] = json!("panic"); ev["out"] = empty_proj(); ev["err"] = json!(m); }
+            }
+            verif_rt::emit(ev);
+        }
+        if seq % 6 != 0 {
+            continue;
+        }
+        // 3. the same through a contract that has a custom query type but no custom message type
+        for via in ["qexec", "qsudo"] {
+            let (mut deps, env, info, envj) = custom_deps(seq);
+            NEXT.with(|n| *n.borrow_mut() = Some(response(s)));
+            SEEN.with(|s| s.borrow_mut().clear());
+            let out: Result<StdResult<Response>, String> = if via == "qexec" {
+                let msg: qonly::sv::ContractExecMsg = sylvia::cw_std::from_json(b"{\"echo_exec\":{}}").unwrap();
+                let (e2, i2) = (env.clone(), info.clone());
+                let d = &mut deps;
+                std::panic::catch_unwind(std::panic::AssertUnwindSafe(|| qonly::entry_points::execute(d.as_mut(), e2, i2, msg))).map_err(|_| "panic".to_string())
+            } else {
+                let msg: qonly::sv::ContractSudoMsg = sylvia::cw_std::from_json(b"{\"echo_sudo\":{}}").unwrap();
+                let e2 = env.clone();
+                let d = &mut deps;
+                std::panic::catch_unwind(std::panic::AssertUnwindSafe(|| qonly::entry_points::sudo(d.as_mut(), e2, msg))).map_err(|_| "panic".to_string())
+            };
+            let seen: Vec<Value> = SEEN.with(|s| s.borrow().clone());
+            let mark = deps.storage.get(b"verif_mark").map(|b| String::from_utf8_lossy(&b).to_string()).unwrap_or_default();
+            let mut ev = json!({"ev":"Bridge","seq":seq,"via":via,"desc":desc,"in":proj(&response(s)),"env":envj,"seen":seen,"native":{},"mark":mark});
             match out {
                 Ok(Ok(o)) => { ev["verdict"] = json!("ok"); ev["out"] = proj(&o); ev["err"] = json!(""); }
                 Ok(Err(e)) => { ev["verdict"] = json!("err"); ev["out"] = empty_proj(); ev["err"] = json!(e.to_string()); }
